@@ -190,11 +190,16 @@ IdealApplyAt(fl, F, pb, pc, op, a) ==
     [] op = "CEq"       -> I(F, "ok", IF a[1] = "self" THEN TRUE ELSE IdealEqCat(C, CatLit(a[1])))
 
 (* ------------------------------------------------------------------ recorded defects *)
-\* BinaryCIFBlock.__delitem__ calls super().__setitem__("_" + key) with one argument: TypeError
+\* BinaryCIFBlock.__delitem__ called super().__setitem__("_" + key) with one argument: TypeError.
+\* Repaired by 08201441: ApplyAt no longer tags BDel; the predicate is kept as the description of
+\* the class that was affected.
 KB_BcifBlockDel(fl, f, pb, op) == fl = "binary" /\ op = "BDel" /\ HasKey(f, pb)
-\* the cached row count is never invalidated: after serialize() / row_count / reading a binary
-\* category, replacing the columns by columns of another length makes serialize() refuse a
-\* consistent category
+\* the cached row count was never invalidated: after serialize() / row_count / reading a binary
+\* category, replacing the columns by columns of another length made serialize() refuse a
+\* consistent category.  Repaired by c2b1fbb3 (__setitem__ / __delitem__ of both category classes
+\* drop the cached count, see CSet / CDel in ApplyAt): no reachable state has an outdated count any
+\* more, so the class is empty; the definitions are kept (InvStaleCharacterised still says that an
+\* outdated count is the only way to lose serialisability).
 KB_StaleRowCount(fl, f, op) ==
   op \in {"Reload", "Peek"} /\ IdealSerializable(AbsFile(f)) /\ ~ImplSerializable(fl, f)
 \* declarative reading of the same condition
@@ -237,7 +242,7 @@ ApplyAt(fl, f, pb, pc, op, a) ==
     [] op = "BGet"      -> IF ~HasKey(B, a[1]) THEN Refuse(g, "KeyError")
                            ELSE LET b2 == [B EXCEPT ![Idx(B, a[1])] = ForceCatEl(fl, @)]
                                 IN Res(WithB(b2), "ok", AbsCat(ValOf(b2, a[1])), {})
-    [] op = "BDel"      -> LET kbs == IF fl = "binary" THEN {"BcifBlockDel"} ELSE {} IN
+    [] op = "BDel"      -> LET kbs == {} IN      \* was {"BcifBlockDel"} for binary before 08201441
                            IF HasKey(B, a[1]) THEN Res(WithB(DelKey(B, a[1])), "ok", <<>>, kbs)
                            ELSE Res(g, "KeyError", <<>>, kbs)
     [] op = "BIter"     -> Res(g, "ok", Keys(B), {})
@@ -246,12 +251,13 @@ ApplyAt(fl, f, pb, pc, op, a) ==
     [] op = "BEq"       -> LET q == EqBlock(fl, B, IF a[1] = "self" THEN AbsBlock(B) ELSE BlockLit(a[1]))
                            IN Res(WithB(q.v), "ok", q.eq, {})
     [] ci = 0           -> Refuse(g, "KeyError")
-    [] op = "CSet"      -> Res(WithC([C EXCEPT !.cols = Put(@, El(a[1], FALSE, a[2]))]), "ok", <<>>, {})
+    \* CSet / CDel: the cached row count is dropped (self._row_count = None, since c2b1fbb3)
+    [] op = "CSet"      -> Res(WithC([C EXCEPT !.cols = Put(@, El(a[1], FALSE, a[2])), !.rc = <<>>]), "ok", <<>>, {})
     [] op = "CGet"      -> IF ~HasKey(C.cols, a[1]) THEN Refuse(h, "KeyError")
                            ELSE Res(WithC([C EXCEPT !.cols[Idx(C.cols, a[1])] = ForceColEl(@)]), "ok",
                                     ValOf(C.cols, a[1]), {})
     [] op = "CDel"      -> IF fl = "text" /\ Len(C.cols) = 1 THEN Refuse(h, "Rejected")
-                           ELSE IF HasKey(C.cols, a[1]) THEN Res(WithC([C EXCEPT !.cols = DelKey(@, a[1])]), "ok", <<>>, {})
+                           ELSE IF HasKey(C.cols, a[1]) THEN Res(WithC([C EXCEPT !.cols = DelKey(@, a[1]), !.rc = <<>>]), "ok", <<>>, {})
                            ELSE Refuse(h, "KeyError")
     [] op = "CIter"     -> Res(h, "ok", Keys(C.cols), {})
     [] op = "CLen"      -> Res(h, "ok", Len(C.cols), {})
@@ -272,7 +278,11 @@ ApplyKB(fl, f, op, a)    == ApplyKBAt(fl, f, PB, PC, op, a)
 \* with '_' inside the block and the prefix is removed again on the way out
 BcifStoredKey(key) == <<"us">> \o key
 BcifShownKeyIntended(stored) == Tail(stored)                                  \* removeprefix("_")
-RECURSIVE BcifShownKeyImpl(_)
-BcifShownKeyImpl(stored) == IF stored # <<>> /\ stored[1] = "us" THEN BcifShownKeyImpl(Tail(stored)) ELSE stored  \* lstrip("_")
-KB_BcifLstripKey(key) == key # <<>> /\ key[1] = "us"
+\* the code as it is since a259ccb0: removeprefix("_"); before, lstrip("_") removed every leading '_'
+\* (BcifShownKeyLstrip) and the keys starting with '_' were a recorded-defect class
+BcifShownKeyImpl(stored) == IF stored # <<>> /\ stored[1] = "us" THEN Tail(stored) ELSE stored
+RECURSIVE BcifShownKeyLstrip(_)
+BcifShownKeyLstrip(stored) == IF stored # <<>> /\ stored[1] = "us" THEN BcifShownKeyLstrip(Tail(stored)) ELSE stored
+\* repaired by a259ccb0: the class is empty (leading FALSE), the rest says which keys were affected
+KB_BcifLstripKey(key) == FALSE /\ key # <<>> /\ key[1] = "us"
 =============================================================================
